@@ -28,7 +28,7 @@ import exn_handlers as T2  # noqa: E402
 RULE = ("templates are random compositions of event-rich snippets (lookups, calls, loops with loop.* queries, filters "
         "with attribute arguments, tests, macros / call blocks, include / import / extends) over probe objects; every "
         "template is rendered clean to count its N data events, then once per k in 1..N and per exception class with "
-        "the k-th event raising, in one of 8 configurations (Environment / SandboxedEnvironment x sync / async x entry "
+        "the k-th event raising, in one of 17 configurations (Environment / Sandboxed / ImmutableSandboxed / Native / StrictUndefined x sync / async x entry "
         "point, async also with coroutine callables and async iterables); a case = (template, configuration, k, "
         "class); distinct non-trivial = the injection fired inside at least two try bodies of the regenerated table / "
         "generated code (i.e. one besides the entry point's), keyed by (template, configuration, k, class)")
@@ -256,6 +256,68 @@ class PStr:
         return self._text
 
 
+class PRich:
+    """the other protocols data takes part in: truth, equality, hashing, ordering, containment, numeric conversion,
+    __html__ / __format__ string conversions, old-style __getitem__-only iteration"""
+
+    def __init__(self, w, n=3, text="<r>"):
+        self._w = w
+        self._n = n
+        self._text = text
+
+    def __bool__(self):
+        self._w.ev("bool")
+        return True
+
+    def __eq__(self, other):
+        self._w.ev("eq")
+        return isinstance(other, PRich) and other._n == self._n or other == self._n
+
+    def __hash__(self):
+        self._w.ev("hash")
+        return hash(self._n)
+
+    def __lt__(self, other):
+        self._w.ev("lt")
+        return self._n < (other._n if isinstance(other, PRich) else other)
+
+    def __contains__(self, item):
+        self._w.ev("contains")
+        return item == self._n
+
+    def __int__(self):
+        self._w.ev("int")
+        return self._n
+
+    def __float__(self):
+        self._w.ev("float")
+        return float(self._n)
+
+    def __html__(self):
+        self._w.ev("html")
+        return "<i>" + self._text + "</i>"
+
+    def __format__(self, spec):
+        self._w.ev("format")
+        return format(self._text, spec)
+
+    def __str__(self):
+        self._w.ev("str")
+        return self._text
+
+
+class PGetItemSeq:
+    """iterable only through the old __getitem__ protocol (IndexError ends it)"""
+
+    def __init__(self, w, seq):
+        self._w = w
+        self._seq = list(seq)
+
+    def __getitem__(self, i):
+        self._w.ev("item")
+        return self._seq[i]
+
+
 class PKey(str):
     """a str subclass used as a subscript; its str() conversion is a data event"""
     _w = None
@@ -279,6 +341,7 @@ def make_data(w, async_data):
         "it": PAIter(w, [3, 1, 2]) if async_data else PIterOnly(w, [3, 1, 2]),
         "s": PStr(w, "t<s>"),
         "k": k,
+        "q": PRich(w, 3), "q2": PRich(w, 1, "<r2>"), "gi": PGetItemSeq(w, [5, 6]),
     }
     g = PRec(w, {"a": "ga"}, {}, "G")
     return d, g
@@ -304,6 +367,16 @@ SNIPS = [
     "{{ r is mapping }}", "{{ o|attr('a') }}", "{{ r|attr('zz') is undefined }}", "{{ o[k] is undefined }}", "{{ r[k] }}",
     "{{ o|length }}", "{{ 1 in o }}", "{{ o.n + 1 }}", "{{ r.n|int }}", "{{ o|list }}", "{{ o|first }}", "{{ o|reverse|list }}",
     "{{ g.a }}", "{{ o|default('d') }}", "{{ o.b|string }}",
+    # truth, equality, hashing, ordering, containment, numeric and markup / format conversions, __getitem__-only iteration
+    "{% if q %}T{% endif %}{{ q and 1 }}{{ not q }}", "{{ q == 3 }}{{ q != q2 }}{{ q in [q2, q] }}", "{{ 3 in q }}{{ 4 in q }}",
+    "{{ [q, q2]|sort|length }}{{ [q2, q]|max is defined }}", "{{ [q, q2, q]|unique|list|length }}", "{{ {q: 1}|length }}{{ [q, q2]|groupby('zz')|length }}",
+    "{{ q|int }}{{ q|float }}{{ q|int(9) + 1 }}", "{{ q }}{{ q|escape }}{{ q|e|length }}", "{{ '%s'|format(q) }}{{ '{}'.format(q) }}{{ q|string }}",
+    "{{ q ~ q2 }}{{ [q, q2]|join('-') }}{{ q|upper }}", "{% for x in gi %}{{ x }}{% endfor %}{{ gi|list }}{{ gi[0] }}{{ gi|first }}",
+    "{{ q|default('d') }}{{ q is sameas q }}{{ q is none }}{{ q|tojson is defined if false else '' }}",
+    # extensions: do, loop controls, i18n (string conversion inside the translation's % formatting)
+    "{% do f() %}{% do o.m(1) %}", "{% for x in xs %}{% if loop.index == 2 %}{% break %}{% endif %}{{ x.a }}{% endfor %}",
+    "{% for x in it if x %}{% if x == 1 %}{% continue %}{% endif %}{{ x }}{{ f() }}{% endfor %}",
+    "{% trans v=s %}v={{ v }}{% endtrans %}{% trans n=o.n %}{{ n }} one{% pluralize %}{{ n }} many{% endtrans %}", "{{ _(s|string) }}{{ gettext('x') ~ s }}",
     "{% for x in xs %}{{ x.a }}{{ loop.index }}{{ loop.length }}{% endfor %}",
     "{% for x in it %}{{ x }}{{ loop.last }}{% endfor %}",
     "{% for x in xs if x.a %}[{{ x.n }}]{% endfor %}",
@@ -355,6 +428,14 @@ CONFIGS = [
     ("env-async-generate_async-adata", False, True, True, "generate_async"),
     ("sbx-async-render_async-adata", True, True, True, "render_async"),
     ("env-async-generate", False, True, False, "generate"),
+    ("sbx-sync-generate", True, False, False, "generate"),
+    ("imm-sync-render", "immutable", False, False, "render"),
+    ("native-sync-render", "native", False, False, "render"),
+    ("native-async-render_async", "native", True, False, "render_async"),
+    ("sbx-async-generate_async", True, True, False, "generate_async"),
+    ("imm-async-render_async-adata", "immutable", True, True, "render_async"),
+    ("env-sync-stream", False, False, False, "stream"),
+    ("env-sync-strict-render", "strict", False, False, "render"),
 ]
 
 
@@ -371,10 +452,15 @@ def gen_template(rng):
 # --------------------------------------------------------------------------- engine driving
 class Engine:
     def __init__(self, jinja2, sandboxed, is_async, templates):
-        from jinja2.sandbox import SandboxedEnvironment
-        cls = SandboxedEnvironment if sandboxed else jinja2.Environment
+        from jinja2.nativetypes import NativeEnvironment
+        from jinja2.sandbox import ImmutableSandboxedEnvironment, SandboxedEnvironment
+        cls = {True: SandboxedEnvironment, False: jinja2.Environment, "immutable": ImmutableSandboxedEnvironment,
+               "native": NativeEnvironment, "strict": jinja2.Environment}[sandboxed]
+        kw = {"undefined": jinja2.StrictUndefined} if sandboxed == "strict" else {}
         self.env = cls(loader=jinja2.FunctionLoader(lambda n: (templates[n], n, lambda: True) if n in templates else None),
-                       enable_async=is_async, autoescape=True)
+                       enable_async=is_async, autoescape=(sandboxed != "native"),
+                       extensions=["jinja2.ext.do", "jinja2.ext.loopcontrols", "jinja2.ext.i18n"], **kw)
+        self.env.install_null_translations()
         self.is_async = is_async
         self.templates = templates
         self.gen_src = {}
@@ -487,16 +573,20 @@ def render_once(engine, name, cfg, world, async_data, loop):
         with warnings.catch_warnings():
             warnings.simplefilter("ignore")
             if entry == "render":
-                out = t.render(**data)
+                out = str(t.render(**data))
             elif entry == "generate":
-                out = "".join(t.generate(**data))
+                out = "".join(map(str, t.generate(**data)))
             elif entry == "module":
                 out = str(t.make_module(data))
+            elif entry == "stream":
+                st = t.stream(**data)
+                st.enable_buffering(3)
+                out = "".join(st)
             elif entry == "render_async":
-                out = loop.run_until_complete(t.render_async(**data))
+                out = str(loop.run_until_complete(t.render_async(**data)))
             elif entry == "generate_async":
                 async def collect():
-                    return "".join([x async for x in t.generate_async(**data)])
+                    return "".join([str(x) async for x in t.generate_async(**data)])
                 out = loop.run_until_complete(collect())
             else:
                 raise AssertionError(entry)
@@ -567,7 +657,7 @@ def run(ctx):
             templates["main.html"] = src
             cfgs = ctx.rng.sample(CONFIGS, 2)
             if ti < len(CONFIGS):
-                cfgs = [CONFIGS[ti], CONFIGS[(ti + 4) % len(CONFIGS)]]
+                cfgs = [CONFIGS[ti], CONFIGS[(ti + 9) % len(CONFIGS)]]
             for cfg in cfgs:
                 inject_all(ctx, jinja2, reader, loop, templates, cfg, pending, table_broken)
     finally:
